@@ -186,7 +186,7 @@ def reader_config(chk, fx):
             chk.instance("C13/R4", "%s: NsReader %s" % (R.short_fn(name), "expands `<x/>` into Start + End (expand_empty_elements(true))" if on
                                                        else "delivers `<x/>` as Event::Empty: every loop must handle both forms alike"),
                          name, c.loc(), holds=True)
-    chk.floor("C13/R5 NsReader construction sites", n, 2)
+    chk.floor("C13/R5 NsReader construction sites", n, 1)
     return bool(expanded) and all(expanded)
 
 
